@@ -94,10 +94,11 @@ CWR = ['cwr_publish_result', 'cwr_subscribe_result', 'cwr_unsubscribe_result', '
 PROPS['C03']['ev'] = ['codec']
 PROPS['C03']['level_text'] += (' Plus unbounded Verus proofs of decode_vli (framing and value), and of the frame decoder steps: one header byte consumed per step, '
                                'a packet whose announced size exceeds the maximum in force is rejected when its length field completes, before any body byte is buffered; '
-                               'of the bounds-checked primitive readers; and of CONNACK and PUBLISH decoding (property sections and whole packet bodies, MQTT 5 and 3.1.1) against a '
+                               'of the bounds-checked primitive readers; of the decoding of all ten server packet types (property sections, whole packet bodies, dispatch on the packet type; MQTT 5 and 3.1.1) against a '
                                'specification written from the OASIS tables (generic property-section parser, allowed identifiers per packet, reason codes, VBI framing, header flags): '
-                               'exactly the legal byte strings are accepted, every value lands in the right field, for all inputs. The other server packets, chunking invariance and '
-                               'hostile streams are bounded (E-B, independent reference encoder).')
+                               'exactly the legal byte strings are accepted and every value lands in the right field, for all inputs; and of the framing loop: decode_bytes preserves the '
+                               'between-reads invariant, a packet is decoded from exactly the announced bytes after its header whatever the chunking, packets are only appended, a decode '
+                               'error is terminal. Hostile streams end to end and the engine-level packet events are bounded (E-B, independent reference encoder).')
 PROPS['C03']['level_note'] += ' ' + TRUST_COMMON
 PROPS.update({
     'C02': _ev(['codec', 'validate'], 'Unbounded proofs that encode_vli appends exactly the Variable Byte Integer of the value (spec function written from OASIS 1.5.5), that the size function equals its length, '
